@@ -257,7 +257,10 @@ func nilSuite(line nilLine, emit func(reflVerdict)) (origins, checks int) {
 		})
 		lib("EqualSelf", func(m proto.Message) any { return proto.Equal(m, m) })
 		lib("EqualEmpty", func(m proto.Message) any { return proto.Equal(m, m.ProtoReflect().New().Interface()) })
-		lib("Clone", func(m proto.Message) any { c := proto.Clone(m); return []any{c.ProtoReflect().IsValid(), proto.Size(c)} })
+		lib("Clone", func(m proto.Message) any {
+			c := proto.Clone(m)
+			return []any{c.ProtoReflect().IsValid(), proto.Size(c)}
+		})
 		lib("MergeFrom", func(m proto.Message) any {
 			dst := m.ProtoReflect().New().Interface()
 			proto.Merge(dst, m)
